@@ -90,8 +90,14 @@ _xml_prefixes = tuple(
 _xml_decl = encode_string("<?xml")
 
 RE_META = re.compile(
-    r'\s*<meta\s+http-equiv=["\']?Content-Type["\']?'
-    r'\s+content=["\']?([^;]+);\s*charset=([^"\']+)["\']?\s*/?\s*>\s*',
+    r'\s*<meta\s+(?:'
+    r'http-equiv=["\']?Content-Type["\']?'
+    r'\s+content=["\']?([^;]+);\s*charset=([^"\']+)["\']?'
+    r'|'
+    # the same two attributes in the opposite order
+    r'content=["\']?([^;]+);\s*charset=([^"\'\s]+)["\']?'
+    r'\s+http-equiv=["\']?Content-Type["\']?'
+    r')\s*/?\s*>\s*',
     re.IGNORECASE
 )
 
@@ -142,8 +148,9 @@ def detect_encoding(
 
     match = RE_META.search(body)
     if match is not None:
-        # this can be treated like tuple[str, str] since we unpack it
-        return match.groups()  # type: ignore[return-value]
+        content_type = match.group(1) or match.group(3)
+        encoding = match.group(2) or match.group(4)
+        return content_type, encoding
 
     return None, default_encoding
 
